@@ -47,12 +47,12 @@ def reachable_states(tier):
         return _STATES[tier]
     depth = 4 if tier == "quick" else 5
     res = []
-    for fl in ("header", "curves"):
+    for fl in ("header", "curves", "file-params"):
         for ci in (False, True):
             seen = {(): True}
             frontier = [([], [])]
             res.append((fl, ci, [], []))
-            for level in range(depth):
+            for level in range(depth if fl != "file-params" else depth - 1):  # reading a file per case is slow
                 nxt = []
                 for ops, keys in frontier:
                     for op in sm.applicable_ops(keys, NAMES, rci=(fl == "curves")):
